@@ -384,23 +384,38 @@ func c08descShapes() []c08dshape {
 		{cancel: true},
 		{foreign: true, flen: 0},
 		{foreign: true, flen: 3},
-		{program: true, upidLen: 0},
-		{program: true, hasDur: true, dnr: true, upidLen: 2},
-		{program: true, dnr: true, upidLen: 3, sub: 0x34},
-		{program: true, hasDur: true, upidLen: 1, sub: 0x36},
-		{program: false, ncomp: 0, upidLen: 1},
-		{program: false, ncomp: 2, hasDur: true, upidLen: 0},
-		{program: false, ncomp: 1, dnr: true, upidLen: 2},
-		{program: true, isMID: true, mid: []int{}},
-		{program: true, hasDur: true, isMID: true, mid: []int{2}},
-		{program: true, isMID: true, mid: []int{0, 1}, sub: 0x34},
 	}
+	// the product of the layout-deciding choices
+	type upidShape struct {
+		isMID bool
+		n     int
+		mid   []int
+	}
+	upids := []upidShape{{false, 0, nil}, {false, 2, nil}, {true, 0, []int{}}, {true, 0, []int{0, 1}}}
 	if vrt.Tier() == 1 {
-		out = append(out,
-			c08dshape{program: false, ncomp: 2, dnr: true, isMID: true, mid: []int{1, 2}, sub: 0x36},
-			c08dshape{program: true, hasDur: true, dnr: true, upidLen: 0, sub: 0x34},
-			c08dshape{program: false, ncomp: 1, hasDur: true, upidLen: 3},
-		)
+		upids = append(upids, upidShape{false, 1, nil}, upidShape{false, 3, nil}, upidShape{true, 0, []int{2}}, upidShape{true, 0, []int{1, 2}})
+	}
+	comps := []int{-1, 0, 2} // -1: program segmentation
+	if vrt.Tier() == 1 {
+		comps = []int{-1, 0, 1, 2}
+	}
+	for _, nc := range comps {
+		for _, dur := range []bool{false, true} {
+			for _, dnr := range []bool{false, true} {
+				for _, u := range upids {
+					for _, sub := range []int{0, 0x34, 0x36} {
+						if sub == 0x36 && vrt.Tier() == 0 && (dnr || nc == 0) {
+							continue
+						}
+						d := c08dshape{program: nc < 0, hasDur: dur, dnr: dnr, isMID: u.isMID, upidLen: u.n, mid: u.mid, sub: sub}
+						if nc > 0 {
+							d.ncomp = nc
+						}
+						out = append(out, d)
+					}
+				}
+			}
+		}
 	}
 	return out
 }
